@@ -102,9 +102,43 @@ func TypeIsObject(d Datum) (bool, string) {
 
 // Used to convert nodesets as well as strings.  Returns NaN in cases of
 // error.
+//
+// XPATH 1.0 section 4.4: optional whitespace (#x20 #x9 #xD #xA), an optional
+// minus sign, a Number (Digits ('.' Digits?)? | '.' Digits) and optional
+// whitespace convert to the nearest IEEE 754 number; any other string
+// converts to NaN.  In particular a leading '+', exponents, hex digits,
+// 'inf' and 'nan' spellings and non-XPATH whitespace are not numbers.
+// 'Infinity' and '-Infinity', the strings that Literal() produces for the
+// infinities, are accepted so that those values survive a round trip.
 func numberFromString(numStr string) float64 {
-	num, err := strconv.ParseFloat(strings.TrimSpace(numStr), 0)
+	numStr = strings.Trim(numStr, " \t\r\n")
+	switch numStr {
+	case "Infinity":
+		return math.Inf(1)
+	case "-Infinity":
+		return math.Inf(-1)
+	}
+	digits, dots := 0, 0
+	for i, c := range []byte(numStr) {
+		switch {
+		case c >= '0' && c <= '9':
+			digits++
+		case c == '.':
+			dots++
+		case c == '-' && i == 0:
+		default:
+			return math.NaN()
+		}
+	}
+	if digits == 0 || dots > 1 {
+		return math.NaN()
+	}
+	num, err := strconv.ParseFloat(numStr, 64)
 	if err != nil {
+		if ne, ok := err.(*strconv.NumError); ok && ne.Err == strconv.ErrRange {
+			// Out of range: nearest value is +/-Infinity
+			return num
+		}
 		return math.NaN()
 	}
 	return num
